@@ -97,8 +97,14 @@ def a_val(v):
     return 'other:' + type(v).__name__
 
 
+_NOANN = set()
+_ANN = [False]      # variant: every ordinary parameter is annotated Optional[int] (with or without a default)
+
+
 def param_src(sig):
     parts = []
+    def ann_of(name):       # (the exclusion predicate of a scenario selects an UNANNOTATED parameter)
+        return ': Optional[int]' if _ANN[0] and name not in _NOANN else ''
     seen_po = False
     star = False
     for i, p in enumerate(sig):
@@ -109,9 +115,9 @@ def param_src(sig):
             seen_po = False
         if k == 'PO':
             seen_po = True
-            parts.append(p['name'] + d)
+            parts.append(p['name'] + ann_of(p['name']) + d)
         elif k == 'PK':
-            parts.append(p['name'] + d)
+            parts.append(p['name'] + ann_of(p['name']) + d)
         elif k == 'VP':
             parts.append('*' + p['name'])
             star = True
@@ -119,7 +125,7 @@ def param_src(sig):
             if not star:
                 parts.append('*')
                 star = True
-            parts.append(p['name'] + d)
+            parts.append(p['name'] + ann_of(p['name']) + d)
         elif k == 'VK':
             parts.append('**' + p['name'])
     if seen_po:
@@ -159,12 +165,12 @@ def _dispatch_log(loc, self_):
 def make(sig, flavour, as_method=False, cached=True):
     """The generated callable is created ONCE per (signature, flavour) and reused by every scenario of this
     process, like a real module-level function registered several times with different context settings."""
-    key = (json.dumps(sig), flavour, as_method)
+    key = (json.dumps(sig), flavour, as_method, _ANN[0])
     if cached and key in _CACHE:
         return _CACHE[key]
     names = [p['name'] for p in sig]
     src_params = param_src(sig)
-    ns = {'DEFAULT': current_default(), '_log': _dispatch_log}
+    ns = {'DEFAULT': current_default(), '_log': _dispatch_log, 'Optional': __import__('typing').Optional}
     locs = 'dict(' + ', '.join('%s=%s' % (n, n) for n in names) + ')'
     if as_method:
         src = 'def m(self%s):\n    return _log(%s, self)\n' % (', ' + src_params if src_params else '', locs)
@@ -197,9 +203,12 @@ def doc_events(methods, pred):
     def m(decoy_a: int, decoy_b: str = 'x'):       # another function exposed under the same name elsewhere
         pass
     decoy = [pjrpc.server.Method(m, 'm')]
+    twin = [pjrpc.server.Method(x.method, x.name) for x in methods if type(x) is pjrpc.server.Method and x.context]
     try:
         oa = openapi.OpenAPI(info=openapi.Info(title='t', version='1'), schema_extractor=pex.PydanticSchemaExtractor(exclude_param=pred))
         oa.schema(path='', methods_map={'': decoy})       # the same specification object documented the look-alike before
+        if twin:
+            oa.schema(path='', methods_map={'': twin})    # ... and the same function under the same name without a context
         doc = json.loads(json.dumps(oa.schema(path='', methods_map={'': methods}), cls=specs.JSONEncoder))
         item = [v for k, v in doc['paths'].items() if k.endswith('#m')][0]
         schema = _resolve(doc, item['post']['requestBody']['content']['application/json']['schema'])
@@ -210,6 +219,8 @@ def doc_events(methods, pred):
     try:
         orpc = openrpc.OpenRPC(info=openrpc.Info(title='t', version='1'), schema_extractor=pex.PydanticSchemaExtractor(exclude_param=pred))
         orpc.schema(path='', methods_map={'': decoy})
+        if twin:
+            orpc.schema(path='', methods_map={'': twin})
         doc = json.loads(json.dumps(orpc.schema(path='', methods_map={'': methods}), cls=specs.JSONEncoder))
         meth = [x for x in doc['methods'] if x['name'] == 'm'][0]
         out.append({'ev': 'Doc', 'kind': 'openrpc', 'names': sorted(p['name'] for p in meth['params']),
@@ -223,6 +234,9 @@ def run(ascn, loop):
     import zlib
     h = zlib.crc32(json.dumps(ascn, sort_keys=True).encode())
     set_scheme(h % 2)
+    _ANN[0] = (h // 8) % 2 == 1
+    _NOANN.clear()
+    _NOANN.add(to_concrete(ascn)['ctx']['xname'])
     scn = to_concrete(ascn)
     sig, ctx, flavour, inp = scn['sig'], scn['ctx'], scn['flavour'], scn['inp']
     ev = []
